@@ -55,6 +55,10 @@ add("C04", "hypothesis-generated diffusion scenarios on stub backends; per-step 
     "Generated search over both diffusion models, binary/ternary element sets, 3-120 nodes, initial profiles assembled from random sequences of the six build steps, constant / break-point / field temperatures, every mix of flux and composition boundary conditions per element and side, both iterators, 1-4 consecutive solve calls, homogenization rules and cache toggles. After every accepted step the mesh sum of each flux-flux element must change by (J_left - J_right) dt/dz to rounding (also across solve calls), fixed-composition nodes keep the value they had after set-up, compositions stay in [min, 1-min].",
     "stub diffusivity / synthetic ideal-solution mobility provider; steps on which the documented clip engaged are counted, not judged")
 
+add("C18", "hypothesis-generated parameter sets and radius/spacing arrays with recomputed minimum rule and limit relations (metamorphic: mixed vs edge/screw formulas), generated grain-growth runs with per-step invariants, coupled toy precipitation runs with alignment invariants checked by an observer",
+    "Generated search over dislocation/contribution parameter sets (global and phase specific), radius arrays mixing zeros, sub-core and normal radii: every branch finite and non-negative, precipitate strength = M*min(weak, strong, Orowan) recomputed from the branches, zero without precipitates, total strength >= parts and monotone, mixed formulas at 90/0 degrees equal the edge/screw formulas; grain growth runs (log-normal/bimodal distributions, drag levels, 1-3 solve calls, both iterators): volume normalised after every step, mean size non-decreasing without drag, drag never reverses/accelerates and freezes when strong; coupled toy precipitation runs: one strength entry per host row and equal clocks after every host step.",
+    "toy binary backend for coupled runs; grid-change steps of the grain model counted, not judged; 1e-4 per-step slack on monotonicity")
+
 NOT_YET = {"C09": "only the composition-cache (HashTable) clause is built so far; thermodynamic query purity on the shipped databases is pending - claimed once complete"}
 
 ALL = ["C%02d" % i for i in range(1, 21)]
